@@ -263,6 +263,11 @@ package join
 //@ stoprule (*Discipline).main
 //@ stop roles dsc.breaker.IsBreaked() dsc.opts.Ctx.Done()
 
+// API accessors (run by other goroutines)
+//@ func (*Discipline).Output
+//@   requires [*] dsc != nil
+//@   ensures [* C03] the-channel-the-discipline-delivers-on: result == dsc.output
+
 // ---------------------------------------------------------------- C20: ownership discipline
 //@ confine Discipline
 //@ confined interruptInterval join passAt unreleased
